@@ -2,18 +2,23 @@
 spec/TtxFaults.tla (+ spec/TtxX26.tla): reception of pages with a fault on every received packet: uncorrectable header page
   number (all pages in progress abandoned), subcode S1/S2, S3/S4, control bits (terminates, opens nothing); text row with an
   uncorrectable address (nothing) or wrong parity in k = 1, 2, 3, 40 bytes, adjacent or scattered (row keeps the stored content or
-  stays blank), on first reception and on retransmission with and without erase; packets X/26 in the sub-language of TtxX26 (row
-  address / column triplets / termination) with an uncorrectable triplet at every position (this and all following triplets are
-  dropped, nothing is misplaced), uncorrectable address / designation of X/26 and X/27 (nothing); magazines 1..8 (8 = address 0),
-  four-digit (clock) subcodes.  Single bit errors in Hamming protected bytes are the error-free behaviour by definition.
-MC:  all interleavings of two magazines with <= 2 damaged packets; invariants OnlyTransmitted, EnhNotMisplaced, ...
+  stays blank), or in exactly the byte of one column that a column triplet of the page's X/26 packet addresses (forgiven only where
+  the triplet's mode supplies the character of the position: TtxX26!CharModes; colour, flash, character set designation, display
+  attribute, font style, PDC and reserved modes excuse nothing), on first reception and on retransmission with and without erase;
+  packets X/26 in the sub-language of TtxX26 (row address / column triplets of every mode / termination) with an uncorrectable
+  triplet at every position (this and all following triplets are dropped, nothing is misplaced), uncorrectable address /
+  designation of X/26 and X/27 (nothing); X/27/0 over stored FLOF links with an uncorrectable link control byte (nothing: the
+  stored links stay) or link (that link keeps its value or is no link); magazines 1..8 (8 = address 0), four-digit (clock) subcodes.
+  Single bit errors in Hamming protected bytes are the error-free behaviour by definition.
+MC:  all interleavings of two magazines with <= 2 damaged packets; invariants OnlyTransmitted, EnhNotMisplaced, LinksContained,
+  action properties ParityErrorContained, DamagedLinkKept, AddressFaultNothing, ...
 GEN -> REPLAY: exhaustive scenario models (one behaviour per final state and fault) and random long transmissions (tlc -simulate)
   with the damage placed on concrete bits; at every termination point the fetched Level 1 / 1.5 page is compared cell by cell with
-  the spec (rows from TtxFormatL1, enhancement characters from TtxX26!Lands); at the end the cache must hold exactly the versions the
-  spec holds, with their content.
+  the spec (rows from TtxFormatL1, enhancement characters from TtxX26!Lands) and the navigation links of the fetched page with the
+  spec's links; at the end the cache must hold exactly the versions the spec holds, with their content.
 TWIN: every single bit of every Hamming 8/4 byte and 24/18 triplet of base transmissions (header, rows, X/26, X/27, X/28, 8/30)
-  flipped: events, fetched pages (Level 1, 1.5, 2.5), cache content must equal the error-free run; two bit errors in the address or
-  designation byte of a non-header packet: must equal the run without that packet."""
+  flipped: events, fetched pages (Level 1, 1.5, 2.5), links, cache content must equal the error-free run; two bit errors in the
+  address or designation byte of a non-header packet or the link control byte of X/27/0: must equal the run without that packet."""
 import json, os, random, shutil, zlib
 from vlib import tlc, core, ttx
 from vlib import build as vbuild
@@ -22,29 +27,38 @@ from checks import c02
 MANIFEST = dict(
     level="model_checking",
     engine="tlc-mc+replay",
-    technique="TLA+ specs TtxFaults (page reception with a fault model on every packet, magazines 1..8, clock subcodes) and TtxX26 (X/26 "
-              "enhancement sub-language, lost triplets) checked exhaustively by TLC (OnlyTransmitted, EnhNotMisplaced, AddressFaultNothing, "
-              "HeaderFaultOnlyAbandons, BadRowContained); generated damaged transmissions (exhaustive scenario models + random walks) replayed "
-              "with the damage on concrete bits, fetched Level 1/1.5 pages compared cell by cell with the specification at every termination "
-              "point, final cache compared with the specification's; every single bit of every Hamming protected unit flipped and compared "
-              "with the error-free twin",
+    technique="TLA+ specs TtxFaults (page reception with a fault model on every packet, magazines 1..8, clock subcodes, FLOF links) and "
+              "TtxX26 (X/26 enhancement sub-language: which column triplet modes supply a character, lost triplets) checked exhaustively by "
+              "TLC (OnlyTransmitted, EnhNotMisplaced, AddressFaultNothing, HeaderFaultOnlyAbandons, BadRowContained, ParityErrorContained, "
+              "DamagedLinkKept); generated damaged transmissions (exhaustive scenario models + random walks) replayed with the damage on "
+              "concrete bits, fetched Level 1/1.5 pages and navigation links compared with the specification at every termination point, "
+              "final cache compared with the specification's; every single bit of every Hamming protected unit flipped and compared with "
+              "the error-free twin",
     text="TLC explores all interleavings of two magazines (incl. magazine 8) with up to two damaged packets: uncorrectable header page number, "
-         "subcode (S1/S2, S3/S4) or control bits, rows with an uncorrectable address or parity errors in 1, 2, 3 or 40 bytes, X/26 packets with "
-         "an uncorrectable triplet at any of the 13 positions, uncorrectable designation bytes; the stored pages are checked against the "
+         "subcode (S1/S2, S3/S4) or control bits, rows with an uncorrectable address or parity errors in 1, 2, 3 or 40 bytes or in exactly "
+         "the column an X/26 triplet addresses, X/26 packets with an uncorrectable triplet at any of the 13 positions, uncorrectable "
+         "designation bytes, X/27/0 packets with an uncorrectable link control byte or link; the stored pages are checked against the "
          "reference (only transmitted page/subpage numbers are stored, a damaged row or packet changes nothing, a damaged header only "
-         "abandons, enhancement characters are dropped, never misplaced). On the real decoder: (1) generated damaged transmissions - every "
-         "fault descriptor on first reception and on retransmission over a cached copy with and without erase, in both magazine kinds - "
-         "with the damage realised on seeded concrete bits; at every termination point the exact fetch at Level 1 and 1.5 is compared cell by "
-         "cell with the specification (enhancement characters where TtxX26 says they land), page events are counted, and at the end the "
-         "cache must contain exactly the specification's versions with the specification's content; (2) for base transmissions incl. X/26, "
-         "X/27, X/28/0 and 8/30 packets every single bit of every Hamming 8/4 byte and 24/18 triplet flipped (events incl. network events, "
-         "Level 1, 1.5, 2.5 fetches, cache content must equal the error-free run) and two bit errors in the address or designation byte of "
-         "non-header packets (must equal the run without the packet).",
+         "abandons, enhancement characters are dropped, never misplaced, a parity error is forgiven only where a triplet supplies the "
+         "character, a damaged link shows no other page). On the real decoder: (1) generated damaged transmissions - every fault "
+         "descriptor on first reception and on retransmission over a cached copy with and without erase, in both magazine kinds; pages "
+         "with X/26 triplets of every column address mode (colours, mosaics, G0/G2/G3, flash, character set designation, display "
+         "attributes, DRCS, font style, PDC, reserved, diacritical marks) and a row with a parity error exactly in the addressed column; "
+         "a page cached with FLOF links retransmitted with different links and two bit errors in the designation, the link control byte "
+         "or each link - with the damage realised on seeded concrete bits; at every termination point the exact fetch at Level 1 and 1.5 "
+         "is compared cell by cell with the specification (enhancement characters where TtxX26 says they land), the navigation links "
+         "of a fetch with navigation are compared with the specification's links, page events are counted, and at the end the cache "
+         "must contain exactly the specification's versions with the specification's content; (2) for base transmissions incl. X/26, "
+         "X/27 (also over stored links), X/28/0 and 8/30 packets every single bit of every Hamming 8/4 byte and 24/18 triplet flipped "
+         "(events incl. network events, Level 1, 1.5, 2.5 fetches, links, cache content must equal the error-free run) and two bit errors "
+         "in the address or designation byte of non-header packets and the link control byte (must equal the run without the packet).",
     note="Bounded: <= 7 packets per exhaustive scenario, 16 per random walk, <= 3 damaged packets per behaviour. A header whose "
          "magazine/packet address is uncorrectable is not covered (no decoder can recognise it as a header; the rows that follow are filed "
-         "under the previous page). A page retransmitted without erase repeats the enhancement data of its stored version. Uncorrectable "
-         "triplets of X/28 and link bytes of X/27 and 8/30 data bytes are compared for single bit errors only (the statement leaves the effect "
-         "of uncorrectable data units of these packets open). Subcodes used are ones the cache stores verbatim (0, 01..79, clock codes).",
+         "under the previous page). A page retransmitted without erase repeats the enhancement data of its stored version. Where the "
+         "statement leaves the outcome open the specification holds the set of allowed outcomes: a parity error at a position whose "
+         "character the enhancement data supply (row as transmitted or earlier content), the links next to an uncorrectable link (new "
+         "or earlier). Uncorrectable triplets of X/28 and 8/30 data bytes are compared for single bit errors only. Diacritical marks 9 "
+         "and 12 (no composed letters in libzvbi's repertoire) are not transmitted. Subcodes used are ones the cache stores verbatim.",
 )
 
 FAULT_ACTS = ("Header", "Filler", "Row", "X26", "Flof")
@@ -53,23 +67,8 @@ HDR_BYTES = {"page": (2, 3), "s12": (4, 5), "s34": (6, 7), "ctrl": (8, 9)}
 
 # ------------------------------------------------------------------------------------------------ row library (TtxFormatL1 by TLC)
 def setup(ctx):
-    """row library of C02 plus an all-blank row; TLC evaluates the Level 1 presentation; -> lib, tab (canonical cells, C02 format), raw"""
-    lib = c02.make_rowlib(random.Random(ctx.seed), 40) + [[0x20] * 40]
-    d = os.path.join(ctx.scratch, "fmt")
-    os.makedirs(d, exist_ok=True)
-    for f in ("TtxFormatL1.tla", "Eval_TtxFormat.tla", "Eval_TtxFormat.cfg"):
-        shutil.copy(os.path.join(tlc.SPEC, f), d)
-    rows = ",\n  ".join("<<" + ", ".join(str(c) for c in r) + ">>" for r in lib)
-    open(os.path.join(d, "RowLib.tla"), "w").write("---- MODULE RowLib ----\nRowLib == <<\n  %s >>\n====\n" % rows)
-    r = tlc.run("Eval_TtxFormat", "Eval_TtxFormat", timeout=600, workers=1, collect_tr=True, cwd=d, heap="2g")
-    ctx.add_mc(r, "EVAL TtxFormatL1 (row library)")
-    tab, raw = {}, {}
-    for e in r.tr:
-        k = (e["k"], e["nat"])
-        tab[k] = dict(cells=[c02.canon(c) for c in e["cells"]], dh=e["dh"], lower=[c02.canon(c) for c in e["lower"]])
-        raw[k] = dict(cells=[list(c) for c in e["cells"]], dh=e["dh"], lower=[list(c) for c in e["lower"]])
-    if len(tab) != 2 * len(lib):
-        raise tlc.ToolFailure("row library evaluation incomplete: %d of %d" % (len(tab), 2 * len(lib)))
+    """row library of C02 plus an all-blank row (the last one); TLC evaluates the Level 1 presentation; -> lib, tab (flags), raw (cells)"""
+    lib, tab, raw = c02.eval_rowlib(ctx, c02.make_rowlib(random.Random(ctx.seed), 40), extra=[[0x20] * 40])
     return lib, tab, raw
 
 
@@ -85,29 +84,45 @@ def dec(s, c):
 
 
 def grid_strings(v, cmap, raw, blank_k, enhanced):
-    """displayed rows 1..24 of a stored version as the driver prints them; enhanced: with the characters the spec says MUST be shown
-    (v["must"]); -> (rows, may) with may = {(row, col): cell string} for the characters that MAY be shown in addition (v["shown"])"""
+    """displayed rows 1..24 of a stored version as the driver prints them: per row the list of ALLOWED row strings (one, except where
+    the spec leaves the outcome open: v["rows"][r] is the set of allowed contents); enhanced: with the characters the spec says MUST be
+    shown (v["must"]); every allowed row comes with {column: cell string} for the characters that MAY be shown in addition (v["shown"])"""
     rows, prev = [], None
     for r in range(1, 25):
-        cid = v["rows"][r - 1]
+        cids = v["rows"][r - 1]
         if prev is not None:
-            rows.append([list(c) for c in raw[prev]["lower"]]); prev = None
+            rows.append([[list(c) for c in raw[prev]["lower"]]]); prev = None
             continue
-        key = (cmap[cid], v["nat"]) if cid else (blank_k, v["nat"])
-        rows.append([list(c) for c in raw[key]["cells"]])
-        if raw[key]["dh"] and r < 24:
-            prev = key
-    may = {}
+        keys = [(cmap[cid], v["nat"]) if cid else (blank_k, v["nat"]) for cid in cids]
+        rows.append([[list(c) for c in raw[key]["cells"]] for key in keys])
+        if len(keys) == 1:
+            if raw[keys[0]]["dh"] and r < 24:
+                prev = keys[0]
+        else:
+            assert not any(raw[k]["sized"] for k in keys), "alternatives only among rows of normal size"
+    may = [[{} for alt in row] for row in rows]          # per row and alternative: column -> cell string that MAY be shown instead
     if enhanced:
         must = {(r, c) for (r, c, u) in v["must"]}
         for (r, c, u) in v["shown"]:
             if 1 <= r <= 24:
-                if (r, c) in must:
-                    rows[r - 1][c][0] = u
-                else:
-                    cell = list(rows[r - 1][c]); cell[0] = u
-                    may[(r, c)] = enc(cell)
-    return ["".join(enc(c) for c in row) for row in rows], may
+                for k, alt in enumerate(rows[r - 1]):
+                    if (r, c) in must:
+                        alt[c][0] = u
+                    else:
+                        cell = list(alt[c]); cell[0] = u
+                        may[r - 1][k][c] = enc(cell)
+    return [[("".join(enc(c) for c in alt), may[r][k]) for k, alt in enumerate(row)] for r, row in enumerate(rows)]
+
+
+def row_matches(alt, gr):
+    """-> None or the first differing column"""
+    er, may = alt
+    if er == gr[:440]:
+        return None
+    for c in range(40):
+        if er[11 * c:11 * c + 11] != gr[11 * c:11 * c + 11] and may.get(c) != gr[11 * c:11 * c + 11]:
+            return c
+    return None
 
 
 # ------------------------------------------------------------------------------------------------ packets and damage
@@ -142,6 +157,22 @@ def damage(rnd, pk, act, override_cols):
         flip2(rnd, pk, (0, 1))
     elif kind == "desig":
         flip2(rnd, pk, (2,))
+    elif kind == "lcb":                         # X/27/0 link control byte
+        flip2(rnd, pk, (39,))
+    elif kind == "link":                        # one of the six Hamming bytes of link k
+        flip2(rnd, pk, range(3 + 6 * (f["k"] - 1), 9 + 6 * (f["k"] - 1)))
+        if rnd.random() < 0.3:                  # plus one corrected error in another link
+            k2 = rnd.choice([k for k in range(1, 7) if k != f["k"]])
+            pk[3 + 6 * (k2 - 1) + rnd.randrange(6)] ^= 1 << rnd.randrange(8)
+    elif kind == "parc":
+        # a parity error in exactly this byte; where the enhancement data supply the character the fall-back character is sent
+        # with even parity (EN 300 706 table 25): only the parity bit is wrong
+        c = f["col"]
+        if override_cols == "parity-bit":
+            pk[2 + c] ^= 0x80
+        else:
+            for bit in rnd.sample(range(8), 3 if rnd.random() < 0.25 else 1):
+                pk[2 + c] ^= 1 << bit
     elif kind == "trip":
         flip2(rnd, pk, (3 + 3 * (f["j"] - 1),), nbits=24)
         if rnd.random() < 0.3 and f["j"] > 1:      # one corrected error in an earlier triplet
@@ -195,7 +226,7 @@ def intended_packet(a, serial, lib, cmap):
 
 def content_map(rnd, beh, lib, tab):
     steps = beh["steps"]
-    ndh = [k + 1 for k in range(len(lib) - 1) if not tab[(k + 1, 0)]["dh"] and not tab[(k + 1, 1)]["dh"]]
+    ndh = [k + 1 for k in range(len(lib) - 1) if not tab[(k + 1, 0)]["sized"] and not tab[(k + 1, 1)]["sized"]]
     has_x26 = any(st["act"]["a"] == "X26" for st in steps)
     uses24 = {st["act"]["c"] for st in steps if st["act"]["a"] == "Row" and st["act"]["r"] >= 23}
     cmap = {}
@@ -224,6 +255,8 @@ def compile_beh(seed, beh, lib, tab, raw):
                 else:
                     override.setdefault(row, set()).add(t["a"])
     has_x26 = bool(override)
+    # positions whose character the enhancement data of a packet of this behaviour supply (computed by TLC: Out.ovr)
+    supplied = {(r, c) for st in steps if st["act"]["a"] == "X26" for (r, c) in beh["ovr"][st["act"]["e"] - 1]}
     lines, checks = [], []
     pkidx = 0
     opened = {}                       # magazine -> (pg, sub, packet index of its header)
@@ -231,7 +264,11 @@ def compile_beh(seed, beh, lib, tab, raw):
     pending = set()                   # keys whose latest transmission the spec has not terminated (yet, or never: abandoned)
     for st in steps:
         a = st["act"]
-        pk = damage(rnd, intended_packet(a, serial, lib, cmap), a, override.get(a.get("r"), ()) if a["a"] == "Row" else ())
+        if a["a"] == "Row" and a["flt"]["f"] == "parc":
+            ocols = "parity-bit" if (a["r"], a["flt"]["col"]) in supplied else ()
+        else:
+            ocols = override.get(a.get("r"), ()) if a["a"] == "Row" else ()
+        pk = damage(rnd, intended_packet(a, serial, lib, cmap), a, ocols)
         lines.append("P " + ttx.hexpk(pk)); pkidx += 1
         for v in st["term"]:
             pending.discard((v["pg"], v["sub"]))
@@ -245,12 +282,14 @@ def compile_beh(seed, beh, lib, tab, raw):
             levels = (15, 1) if (has_x26 or v["n"]) else (15,)
             for lvl in levels:
                 lines.append("F %x %x %d 3" % (v["pg"], v["sub"], lvl))
-                grid, may = grid_strings(v, cmap, raw, blank_k, lvl == 15)
-                checks.append(("page", len(lines) - 1, dict(exp, lvl=lvl, grid=grid, may=may, count_ev=(lvl == 15))))
+                grid = grid_strings(v, cmap, raw, blank_k, lvl == 15)
+                checks.append(("page", len(lines) - 1, dict(exp, lvl=lvl, grid=grid, count_ev=(lvl == 15))))
             lines.append("F %x 3f7f 1 1" % v["pg"])
             checks.append(("wild", len(lines) - 1, exp))
             lines.append("C %x %x" % (v["pg"], v["sub"]))
             checks.append(("cached", len(lines) - 1, None))
+            lines.append("N %x %x" % (v["pg"], v["sub"]))
+            checks.append(("nav", len(lines) - 1, dict(pg=v["pg"], sub=v["sub"], links=v["links"], row24=v["rows"][23] != [0])))
         m = (a["pg"] >> 8) if a["a"] == "Header" else a["m"]
         if a["a"] in ("Header", "Filler"):
             if a["flt"]["f"] == "page":
@@ -268,8 +307,10 @@ def compile_beh(seed, beh, lib, tab, raw):
             continue                  # retransmitted and not terminated by its own magazine (or abandoned): in serial mode the
                                       # decoder may already hold the newer version (it may store earlier, never later)
         lines.append("F %x %x 15 3" % (v["pg"], v["sub"]))
-        grid, may = grid_strings(v, cmap, raw, blank_k, True)
-        checks.append(("page", len(lines) - 1, dict(pg=v["pg"], sub=v["sub"], lvl=15, grid=grid, may=may, count_ev=False, final=True)))
+        grid = grid_strings(v, cmap, raw, blank_k, True)
+        checks.append(("page", len(lines) - 1, dict(pg=v["pg"], sub=v["sub"], lvl=15, grid=grid, count_ev=False, final=True)))
+        lines.append("N %x %x" % (v["pg"], v["sub"]))
+        checks.append(("nav", len(lines) - 1, dict(pg=v["pg"], sub=v["sub"], links=v["links"], row24=v["rows"][23] != [0], final=True)))
     return lines, checks
 
 
@@ -295,6 +336,10 @@ def compare(lines, checks, got):
                 return ("diverge:fetch:not-cached", "%s: page %x must be stored at this point" % (lines[i], e["pg"]))
             if g["pgno"] != e["pg"] or g["subno"] != e["sub"]:
                 return ("diverge:fetch:wrong-version", "%s: spec %x/%x, fetched %x/%x" % (lines[i], e["pg"], e["sub"], g["pgno"], g["subno"]))
+        elif kind == "nav":
+            bad = compare_nav(e, g, lines[i])
+            if bad:
+                return bad
         elif kind == "audit":
             stored = {(p, s) for p, s in g["pages"]}
             missing = e["keys"] - stored
@@ -319,15 +364,15 @@ def compare(lines, checks, got):
             if g["pgno"] != e["pg"] or g["subno"] != e["sub"]:
                 return ("diverge:fetch:wrong-version", "%s%s: spec %x/%x, fetched %x/%x" % (where, ln, e["pg"], e["sub"], g["pgno"], g["subno"]))
             for r in range(1, 25):
-                er, gr = e["grid"][r - 1], g["rows"][r]
-                if er == gr[:440]:
+                alts, gr = e["grid"][r - 1], g["rows"][r]
+                diff = [row_matches(alt, gr) for alt in alts]
+                if None in diff:
                     continue
-                for c in range(40):
-                    ec, gc = dec(er, c), dec(gr, c)
-                    if ec != gc and e["may"].get((r, c)) != gr[11 * c:11 * c + 11]:
-                        what = ["char", "foreground", "background", "flash", "conceal", "size"][next(k for k in range(6) if ec[k] != gc[k])]
-                        return ("diverge:fetch%s:%s" % ("15" if e["lvl"] == 15 else "", what),
-                                "%s%s row %d column %d: spec %s, fetched %s" % (where, ln, r, c, ec, gc))
+                c = diff[0]
+                ec, gc = dec(alts[0][0], c), dec(gr, c)
+                what = ["char", "foreground", "background", "flash", "conceal", "size"][next(k for k in range(6) if ec[k] != gc[k])]
+                return ("diverge:fetch%s:%s" % ("15" if e["lvl"] == 15 else "", what),
+                        "%s%s row %d column %d: spec %s%s, fetched %s" % (where, ln, r, c, ec, " (or one of %d other allowed contents of the row)" % (len(alts) - 1) if len(alts) > 1 else "", gc))
             row0.setdefault((i if e.get("final") else e["at"], e["pg"], e["sub"]), {})[e["lvl"]] = g["rows"][0]
             if e.get("count_ev"):
                 n = sum(1 for (k, pg, sub) in events if pg == e["pg"] and sub == e["sub"] and (e["hdr"] or 0) < k <= e["at"])
@@ -340,9 +385,35 @@ def compare(lines, checks, got):
     return None
 
 
+def compare_nav(e, g, ln):
+    """FLOF links of the fetched page (nav_link 0..3: the coloured links, 5: the index link) against the spec: per link the SET of allowed
+    link set ids (0 = no link).  With a stored row 24 the decoder sets only the links row 24 has a coloured text for."""
+    where = "final " if e.get("final") else ""
+    if not g.get("ok"):
+        return ("diverge:fetch:not-cached", "%s%s: page %x/%x must be stored at this point" % (where, ln, e["pg"], e["sub"]))
+    for k in (0, 1, 2, 3, 5):
+        pg, sub = g["nav"][k]
+        allowed = e["links"][k]
+        ok = False
+        for l in allowed:
+            want = c02.LINKSETS[l][k] if l else None
+            if want is None or c02.no_link(want[0]):
+                ok = ok or c02.no_link(pg) or k == 5        # no index link: the decoder offers the initial page instead
+            else:
+                ok = ok or (pg, sub) == want or (e["row24"] and k < 4 and c02.no_link(pg))
+        if not ok:
+            return ("diverge:links", "%s%s: link %d is %x/%x; allowed: %s" % (where, ln, k, pg, sub, ", ".join(
+                ("%x/%x (link set %d)" % (c02.LINKSETS[l][k] + (l,))) if l else "no link" for l in allowed)))
+    return None
+
+
 def fkey(f):
     if f["f"] == "par":
         return "par%d%s" % (f["k"], "a" if f["adj"] else "")
+    if f["f"] == "parc":
+        return "parc"
+    if f["f"] == "link":
+        return "link"
     if f["f"] == "trip":
         return "trip"
     return f["f"]
@@ -359,11 +430,17 @@ def fault_sig(beh):
 def shape(beh):
     """stratum of a behaviour: action kinds, faults (with triplet position), erase flags, magazines - not page numbers / contents"""
     out = []
+    parc = any(f["f"] == "parc" for _, f in faults_of(beh))
     for st in beh["steps"]:
         a = st["act"]
         s = a["a"][0] + ("e" if a.get("erase") else "")
+        if parc and a["a"] == "X26":
+            s += str(a["e"])                # which packet (which triplet modes) the damaged column meets
+        if a["a"] == "Flof":
+            s += str(a["l"])
         if a["flt"]["f"] != "ok":
-            s += ":" + fkey(a["flt"]) + (str(a["flt"]["j"]) if a["flt"]["f"] == "trip" else "")
+            s += ":" + fkey(a["flt"]) + (str(a["flt"]["j"]) if a["flt"]["f"] == "trip" else "") + \
+                (str(a["flt"]["col"]) if a["flt"]["f"] == "parc" else "") + (str(a["flt"]["k"]) if a["flt"]["f"] == "link" else "")
         m = (a["pg"] >> 8) if a["a"] == "Header" else a["m"]
         out.append(s + ("8" if m == 8 else ""))
     return beh["mode"][0] + " " + " ".join(out)
@@ -512,7 +589,7 @@ def twin_pass(ctx, drv, bases, lib, tab, per_base, err2_per_base):
         pks.insert(rnd.randrange(len(pks) + 1), p830(rnd.choice([0, 1]), rnd))
         pks.insert(rnd.randrange(len(pks) + 1), p830(rnd.choice([2, 3]), rnd))
         pages = sorted({st["act"]["pg"] for st in beh["steps"] if st["act"]["a"] == "Header"})
-        tail = ["F %x 3f7f %d 2" % (pg, lvl) for pg in pages for lvl in (1, 15, 25)] + ["L"]
+        tail = ["F %x 3f7f %d 2" % (pg, lvl) for pg in pages for lvl in (1, 15, 25)] + ["N %x 3f7f" % pg for pg in pages] + ["L"]
         clean = ["V"] + ["P " + ttx.hexpk(p) for p in pks] + tail
         ci = len(scripts); scripts.append(clean)
         units, err2 = [], []
@@ -525,7 +602,8 @@ def twin_pass(ctx, drv, bases, lib, tab, per_base, err2_per_base):
                 for bit in range(24):
                     units.append((i, [(t0 + bit // 8, bit % 8)]))
             if pno != 0:
-                for b in ([0, 1] + ([2] if pno in (26, 27, 28, 30) else [])):
+                # address bytes, designation, and the link control byte of X/27/0
+                for b in ([0, 1] + ([2] if pno in (26, 27, 28, 30) else []) + ([39] if pno == 27 and _INV[pk[2]] == 0 else [])):
                     for b1 in range(8):
                         for b2 in range(b1 + 1, 8):
                             err2.append((i, [(b, b1), (b, b2)]))
@@ -580,7 +658,7 @@ def twin_pass(ctx, drv, bases, lib, tab, per_base, err2_per_base):
             n = min(len(a["lines"]), len(bl))
             k = next((i for i in range(n) if a["lines"][i] != bl[i]), n)
             what = vv[k].split()[0] if k < len(vv) else "end"
-            ctx.violate("replay", "twin:%s:%s" % ("err2" if skip is not None else "single-bit", {"P": "events", "F": "fetch", "L": "cache-content"}.get(what, what)),
+            ctx.violate("replay", "twin:%s:%s" % ("err2" if skip is not None else "single-bit", {"P": "events", "F": "fetch", "N": "links", "L": "cache-content"}.get(what, what)),
                         "%s changes the result of command %d (%s): %s instead of %s\npackets: %s"
                         % (d, k + 1, vv[k][:60] if k < len(vv) else "", str(bl[k])[:200] if k < len(bl) else None,
                            str(a["lines"][k])[:200] if k < len(a["lines"]) else None, [brief_act(st["act"]) for st in beh["steps"]]),
@@ -590,10 +668,12 @@ def twin_pass(ctx, drv, bases, lib, tab, per_base, err2_per_base):
 
 # ------------------------------------------------------------------------------------------------ run
 QUICK_GEN = [  # (cfg, behaviours per stratum, cap)
-    ("Gen_TtxFaults_retx8", 2, 700),
-    ("Gen_TtxFaults_retx1", 1, 400),
-    ("Gen_TtxFaults_mags", 1, 900),
-    ("Gen_TtxFaults_x26", 1, 500),
+    ("Gen_TtxFaults_retx8", 2, 600),
+    ("Gen_TtxFaults_retx1", 1, 350),
+    ("Gen_TtxFaults_mags", 1, 800),
+    ("Gen_TtxFaults_x26", 1, 450),
+    ("Gen_TtxFaults_modes", 40, 0),       # every column triplet mode x parity error in its column: all behaviours
+    ("Gen_TtxFaults_flof", 40, 0),        # X/27/0 over stored links, every protected unit: all behaviours
 ]
 THOROUGH_GEN = [
     ("Gen_TtxFaults_retx8", 40, 0),
@@ -601,17 +681,22 @@ THOROUGH_GEN = [
     ("Gen_TtxFaults_mags_t", 2, 0),
     ("Gen_TtxFaults_x26_t", 20, 0),
     ("Gen_TtxFaults_retxx", 20, 0),
+    ("Gen_TtxFaults_modes", 1000, 0),
+    ("Gen_TtxFaults_flof", 1000, 0),
 ]
 
 
 def run(ctx):
     quick = ctx.tier == "quick"
     ctx.cov["rule"] = ("cases = damaged transmissions (generated from TtxFaults: exhaustive scenario models, one behaviour per final state and fault, "
-                       "sampled per stratum = sequence of packet kinds / fault descriptors / erase flags / magazine kind in the quick tier, and random "
+                       "sampled per stratum = sequence of packet kinds / fault descriptors / erase flags / magazine kind in the quick tier - the X/26 "
+                       "mode and the FLOF link models are replayed completely -, and random "
                        "walks; damage on seeded concrete bits) and single-bit / address-fault variants of base transmissions (every bit of every "
                        "Hamming 8/4 byte and 24/18 triplet, sampled per base in the quick tier); distinct by packet bytes; non-trivial = contains a "
                        "damaged packet")
     ctx.assumptions += ["a header whose magazine/packet address bytes are uncorrectable is outside the statement's reach",
+                        "a parity error at a position whose character the X/26 data supply hits the parity bit (the fall-back character "
+                        "sent with even parity, EN 300 706 table 25); the statement excepts these positions, both outcomes are accepted",
                         "a page retransmitted without the erase flag repeats the enhancement data (X/26) of its stored version",
                         "a damaged parity byte has an odd number of bit errors (an even number is undetectable by any decoder)",
                         "consistent header text (no channel switch inferred)"]
@@ -620,12 +705,12 @@ def run(ctx):
 
     def mc(args):
         return tlc.run(*args[0], **args[1])
-    runs = [(("MC_TtxFaults", "MC_TtxFaults_q" if quick else "MC_TtxFaults_t"), dict(timeout=2400, workers=6, heap="8g"))]
+    runs = [(("MC_TtxFaults", "MC_TtxFaults_q" if quick else "MC_TtxFaults_t"), dict(timeout=2400, workers=2 if quick else 6, heap="8g"))]
     for cfg, per, cap in (QUICK_GEN if quick else THOROUGH_GEN):
-        runs.append((("Gen_TtxFaults", cfg), dict(timeout=2400, workers=3 if quick else 6, collect_tr=True, heap="4g")))
+        runs.append((("Gen_TtxFaults", cfg), dict(timeout=2400, workers=2 if quick else 6, collect_tr=True, heap="4g")))
     runs.append((("Gen_TtxFaults", "Gen_TtxFaults_sim"), dict(timeout=2400, workers=1, collect_tr=True, heap="4g", simulate=12 if quick else 200,
                                                                depth=17, seed=ctx.seed, max_tr=400 if quick else 6000)))
-    res = core.pmap(mc, runs, workers=3 if quick else 2)
+    res = core.pmap(mc, runs, workers=4 if quick else 2)
     r = res[0]
     ctx.add_mc(r, "MC TtxFaults")
     if r.violation:
@@ -635,6 +720,10 @@ def run(ctx):
         ctx.add_mc(neg, "MC TtxX26 negative (drop only the damaged triplet)")
         if not neg.violation:
             ctx.violate("mc", "mc:negative-test:RuleTriplet", "NotMisplaced does not tell the two rules for a lost triplet apart")
+        fl = tlc.run("MC_TtxFaults", "MC_TtxFaults_flof_t", timeout=2400, workers=8, heap="8g")
+        ctx.add_mc(fl, "MC TtxFaults (X/27/0 over stored links, every protected unit)")
+        if fl.violation:
+            ctx.violate("mc", "mc:%s:%s" % (fl.violation["kind"], fl.violation["name"]), fl.violation["text"][:3000])
         old = tlc.run("MC_TtxAssembly", "MC_TtxAsmFaults_t", timeout=2400, workers=8, heap="8g")
         ctx.add_mc(old, "MC TtxAssembly with fault actions")
         if old.violation:
@@ -659,7 +748,9 @@ def run(ctx):
     rnd = random.Random(ctx.seed)
     walks = list(g.tr)
     rnd.shuffle(walks); rnd.shuffle(bases)
-    tb = walks[:8 if quick else 30]
+    # bases of the twin pass: random walks, and fault-free transmissions of a page whose FLOF links change (X/27/0 over stored links)
+    relink = [b for b in bases if len({st["act"]["l"] for st in b["steps"] if st["act"]["a"] == "Flof"}) > 1]
+    tb = walks[:8 if quick else 30] + relink[:2 if quick else 12]
     n = twin_pass(ctx, drv, tb, lib, tab, per_base=260 if quick else 100000, err2_per_base=40 if quick else 100000)
     if tb:
         ctx.sample(dict(source="twin pass base", mode=tb[0]["mode"], packets=[brief_act(st["act"]) for st in tb[0]["steps"]]))
